@@ -1,9 +1,13 @@
 import PycsepVerif.Proto
 import PycsepVerif.Model.PairedTests
+import PycsepVerif.Model.PairedPub
 /-! driver ops of C08. Floats travel as IEEE bit patterns, rationals as n/d.
   c08_t   rA rB N NA NB tcrit            -> "ig t lower upper var"          (Float instance of tTest)
   c08_bin dataA dataB ev NA NB tcrit     -> "ig t lower upper var n_active active-list"  (binaryT; nb = |dataA|)
-  c08_w   x m                            -> "count t2 mn4 se24 z"           (exact wStats; z = Float wZ of them) -/
+  c08_w   x m                            -> "count t2 mn4 se24 z"           (exact wStats; z = Float wZ of them)
+  c08_pubt baseA fA daysA baseB fB daysB ev scale tcrit -> "ig t lower upper var nA nB"   (pairedTPub; ev = flat bin indices)
+  c08_pubb baseA fA daysA baseB fB daysB ev scale tcrit -> "ig t lower upper var n_active active-list" (binaryTPub)
+  c08_pubw LA LB n1 n2 n                 -> "count t2 mn4 se24 z"           (wStatsPub on the float logs, rationals) -/
 namespace Drive.C08
 open Proto PairedTests
 
@@ -33,5 +37,28 @@ def handle : List String → Option String
           let z : Float := wZ (Float.ofNat s.t2 / 2.0) (Float.ofNat s.mn4 / 4.0) (ratToFloat s.se24)
           s!"{s.count} {s.t2} {s.mn4} {showRat s.se24} {showFloat z}"
       | _, _ => "bad-op")
+  | ["c08_pubt", ba, fa, da, bb, fb, db, ev, sc, tc] => some (
+      match parseList? parseFloat? ba, parseFloat? fa, da.toNat?, parseList? parseFloat? bb, parseFloat? fb, db.toNat?,
+            parseList? String.toNat? ev, parseFloat? tc with
+      | some ba, some fa, some da, some bb, some fb, some db, some ev, some tc =>
+          let A : Fc Float := ⟨ba, fa, da⟩; let B : Fc Float := ⟨bb, fb, db⟩
+          let scale := sc == "1"
+          s!"{showT (pairedTPub A B ev scale tc)} {showFloat (A.targetRates ev scale).2} {showFloat (B.targetRates ev scale).2}"
+      | _, _, _, _, _, _, _, _ => "bad-op")
+  | ["c08_pubb", ba, fa, da, bb, fb, db, ev, sc, tc] => some (
+      match parseList? parseFloat? ba, parseFloat? fa, da.toNat?, parseList? parseFloat? bb, parseFloat? fb, db.toNat?,
+            parseList? String.toNat? ev, parseFloat? tc with
+      | some ba, some fa, some da, some bb, some fb, some db, some ev, some tc =>
+          let A : Fc Float := ⟨ba, fa, da⟩; let B : Fc Float := ⟨bb, fb, db⟩
+          let act := activeBins ba.length ev
+          s!"{showT (binaryTPub A B ba.length ev (sc == "1") tc)} {act.length} {showList toString act}"
+      | _, _, _, _, _, _, _, _ => "bad-op")
+  | ["c08_pubw", la, lb, n1, n2, n] => some (
+      match parseList? parseRat? la, parseList? parseRat? lb, parseRat? n1, parseRat? n2, parseRat? n with
+      | some la, some lb, some n1, some n2, some n =>
+          let s := wStatsPub la lb n1 n2 n
+          let z : Float := wZ (Float.ofNat s.t2 / 2.0) (Float.ofNat s.mn4 / 4.0) (ratToFloat s.se24)
+          s!"{s.count} {s.t2} {s.mn4} {showRat s.se24} {showFloat z}"
+      | _, _, _, _, _ => "bad-op")
   | _ => none
 end Drive.C08
